@@ -38,6 +38,18 @@ CHECKS = {
             'simulated',
             'deterministic simulation: seeded thread scheduler + fault '
             'injection, history oracle'),
+    'C17': ('listener', 'exploration',
+            'seeded search over request byte sequences (mutation catalogue '
+            'over request line, headers, Content-Length, CIM-XML body), '
+            'sender disconnect points and request histories against the real '
+            'listener stack; every response is parsed and DTD-validated',
+            'request lines the stdlib rejects / treats as HTTP/0.9 are only '
+            'required not to harm the listener; the mutation catalogue, not '
+            'the whole byte space, is sampled; Sim* primitives trusted as in '
+            'C16',
+            'deterministic simulation: simulated sockets with byte-level '
+            'request faults and disconnects, response oracle + history '
+            'oracle'),
 }
 
 ENGINES = [
